@@ -62,6 +62,9 @@ def make_exc(kind):
         return TextXSemanticError("injected")
     if kind == "txloc":
         return TextXError("injected", line=77, col=88, nchar=99, filename="sentinel.file")
+    if kind == "txloc-sem":
+        # the same through a subclass (its constructor has to forward every location field)
+        return TextXSemanticError("injected", line=77, col=88, nchar=99, filename="sentinel.file")
     if kind == "txpartial":
         # the typical TextXSemanticError(msg, line=..., col=...): file name and nchar are still to be filled
         return TextXSemanticError("injected", line=77, col=88)
@@ -732,18 +735,21 @@ def run(ctx):
         ctx.nontrivial = bool(e1.rec.objprocs) and (e1.sched.postponements > 0 or nfiles > 1 or bool(e1.rec.replaced))
         if e1.rec.replaced:
             ctx.probe("replacement")
-        return
+        if not (cfg["global_repo"] and t.chance(1, 2, "c13-after-a-failed-load")):
+            return
+        # the processors must also run once per object in the load *after* a load that failed late
     if prop == "C14" and not t.chance(2, 5, "c14-fault-path"):
         ctx.nontrivial = bool(cfg["classes"])
         return
     del m1
     e1seq = list(e1.rec.seq)
+    e1procs = Counter((e[1], tuple(e[2])) for e in e1seq if e[0] == "objproc")
     # ---- faulted load (fresh E2, weak recorder)
     fault = draw_fault(t, prop, counts, w, refs, cfg)
     if fault is None:
         ctx.nontrivial = False
         return
-    run_fault(ctx, prop, w, cfg, cfgcls, fault, as_string, d1, counts, refs, e1seq)
+    run_fault(ctx, prop, w, cfg, cfgcls, fault, as_string, d1, counts, refs, e1seq, e1procs)
 
 
 def _mirror_resolved(ctx, env):
@@ -768,10 +774,14 @@ def draw_fault(t, prop, counts, w, refs, cfg):
         if not sites:
             return None
         site = t.pick(sites, "fault-site")
-        exck = t.pick(["tx", "txloc", "valwrap", "txpartial"], "exc-kind")
+        exck = t.pick(["tx", "txloc", "valwrap", "txpartial", "txloc-sem"], "exc-kind")
         return ("callback", site, 1 + t.draw(counts[site], "fault-k"), exck)
     cb = [s for s in CALLBACK_SITES if counts.get(s)]
     options = [("callback", s) for s in cb] + [("input", k) for k in INPUT_FAULTS]
+    if prop == "C13":
+        options = [("callback", s) for s in cb if s in ("objproc", "modelproc", "init")]
+        if not options:
+            return None
     if prop == "C14" and not cfg["global_repo"]:
         options.append(("nested", "propagate"))
         options.append(("nested", "swallow"))
@@ -825,7 +835,7 @@ def undo_input_fault(w, fault):
     w.install(SIMFS)
 
 
-def run_fault(ctx, prop, w, cfg, cfgcls, fault, as_string, d1, counts, refs, e1seq):
+def run_fault(ctx, prop, w, cfg, cfgcls, fault, as_string, d1, counts, refs, e1seq, e1procs=None):
     e2 = Env(ctx, "fault", w, cfg, strong=False)
     _mirror_resolved(ctx, e2)
     rec = e2.rec
@@ -909,6 +919,8 @@ def run_fault(ctx, prop, w, cfg, cfgcls, fault, as_string, d1, counts, refs, e1s
     if prop == "C14":
         return
     # ---- C15/1: nothing reachable
+    if prop == "C13":
+        ctx.nontrivial = True
     gc.collect()
     alive_new = sum(1 for r in rec.news if r() is not None)
     alive_parsed = 0
@@ -937,9 +949,18 @@ def run_fault(ctx, prop, w, cfg, cfgcls, fault, as_string, d1, counts, refs, e1s
     rec.fault_fired = "done"
     e2.sched.resolved.clear()
     e2.sched.calls.clear()
+    mark = len(rec.seq)
     try:
         m3 = e2.load(as_string)
         d3 = dump_model(m3)
+        if prop == "C13" and e1procs is not None:
+            got = Counter((e[1], tuple(e[2])) for e in rec.seq[mark:] if e[0] == "objproc")
+            if got != e1procs:
+                miss = sorted((e1procs - got).items())[:3]
+                extra = sorted((got - e1procs).items())[:3]
+                ctx.violate("C13", "once-per-object", where + "/after-failed-load",
+                            f"in the load after a failed load the object processors did not run once per object: "
+                            f"missing {miss}, extra {extra}")
         if d3 != d1:
             ctx.violate("C15", "next-load-equals-fresh", where,
                         "after the failed load the same metamodel builds a different model than a fresh metamodel")
@@ -1023,7 +1044,7 @@ def check_c33(ctx, w, env, fault, err, outcome, as_string, where):
         return
     if err["msg"] != "injected":
         ctx.violate("C33", "message-preserved", cls, f"message is {err['msg']!r}")
-    if exck == "txloc":
+    if exck in ("txloc", "txloc-sem"):
         got = (err.get("line"), err.get("col"), err.get("nchar"), err.get("filename"))
         if got != (77, 88, 99, "sentinel.file"):
             ctx.violate("C33", "supplied-location-kept", cls, f"processor-supplied location became {got}")
